@@ -33,6 +33,29 @@ def call_table(facts, fn, callee):
     return out
 
 
+def foreach_sites(facts, fn, callee):
+    """`<iter over X>.for_each(|e| callee(e..))` written as an adapter instead of a `for` loop: (block, terminator, DNF of the
+    for_each call, rendered receiver chain) for closures that call `callee` unconditionally"""
+    out = []
+    sym = q.sym(facts, fn)
+    for bi, t in fn.calls():
+        if (t['callee'].get('path') or '') != 'std::iter::Iterator::for_each':
+            continue
+        for a in t['args'][1:]:
+            if a[0] == 'k' or not is_local(a[1]):
+                continue
+            cd = fn.locals[a[1][0]].get('closure')
+            g = facts.fn(cd, required=False) if cd else None
+            if g is None:
+                continue
+            sites = q.calls(g, callee)
+            if not sites:
+                continue
+            if all(all(len(c) == 0 for c in q.cond_of_block(facts, g, gb)) for gb, _ in sites):
+                out.append((bi, t, q.op_cond_of_block(facts, fn, bi), render(strip(sym.operand(t['args'][0])))))
+    return out
+
+
 def inputs_of(dnf):
     vs = set()
     for c in dnf:
@@ -245,6 +268,15 @@ def flush_rule(ctx):
                     ctx.viol('%s|flush-not-all' % fn.path, t['at'], '%s::next does not flush inside a loop over all of self.senders' % name, None)
             if not in_cycle(fn, bi):
                 ctx.viol('%s|flush-once' % fn.path, t['at'], '%s::next flushes a single batcher, not every one' % name, None)
+        for bi, t, dnf, chain in foreach_sites(facts, fn, FLUSH):
+            # iterator-adapter form of the same loop
+            ins_f |= inputs_of(dnf)
+            ctx.inst('%s|flush' % name, {'at': t['at'], 'inputs': sorted(inputs_of(dnf)), 'conditions': show_dnf(dnf), 'for_each over': chain[:100]})
+            for c in dnf:
+                if other_atoms(c):
+                    ctx.viol('%s|conditional-flush' % fn.path, t['at'], '%s::next flushes only under %s' % (name, show_dnf([frozenset(other_atoms(c))])), None)
+            if 'self.senders' not in chain or any(x in chain for x in ('::take(', '::skip(', '::filter(', '::step_by(', '::take_while(', '::skip_while(')):
+                ctx.viol('%s|flush-not-all' % fn.path, t['at'], '%s::next does not flush every element of self.senders (for_each over `%s`)' % (name, chain[:120]), None)
         if ins_f != {'FlushAndRestart', 'FlushBatch'}:
             ctx.viol('%s|flush-inputs' % fn.path, fn.at,
                      '%s::next flushes its batchers on %s, required exactly on FlushAndRestart and FlushBatch: buffered elements '
